@@ -132,7 +132,7 @@ def _worker(job):
     rng = random.Random(seedstr)
     out = []
     for _ in range(n):
-        prof = rng.choice(["mixed", "o2m", "tree", "m2m", "cycle", "inherit", "oneway", "graph", "unit", "peer", "owner", "composite"])
+        prof = rng.choice(["mixed", "o2m", "tree", "m2m", "cycle", "inherit", "oneway", "graph", "unit", "peer", "owner", "composite", "chain"])
         setup, work = G.gen_fault_case(rng, prof)
         try:
             ref = G.fault_case(setup, work, ("dml", 10 ** 9))
@@ -229,7 +229,7 @@ def run(ctx, deep=False):
     from harness import lib_uow_gen as G
 
     ctx.rule = (
-        "part A: generated transactions over fifteen relationship families (harness/lib_graph.py) (0-2 committed setup rounds, then 3-8 mutations), failed at 2 seeded "
+        "part A: generated transactions over sixteen relationship families (harness/lib_graph.py) (0-2 committed setup rounds, then 3-8 mutations), failed at 2 seeded "
         "(quick) / all (thorough) statement positions of their flushes, by one flush-event exception and (half of them) by a unique violation; "
         "part B: seeded random single-class histories (conflicting primary keys, phantom rows, pk changes, savepoints) compared with the "
         "model after every operation; non-trivial = the fault fired (A) / a lifecycle event fired (B)"
